@@ -97,12 +97,18 @@ def plan(case, rng):
 # --------------------------------------------------------------------------------------------
 # oracle (implementation only)
 
-def known_class(case, cls, o):
-    """id of the known-finding class an oracle failure belongs to, or None"""
-    if cls == "hover" and o is not None and o["kind"] in ("proc", "type") and o["decl"] is not None:
+def shadowed_global(case, o):
+    """the occurrence is bound to a GLOBAL entity (procedure / type name) while the enclosing procedure declares a local
+    of the same spelling - the class of the repaired defect C14-hover-local-before-global (b909979); counted in the
+    evidence, and a failure here is an ordinary VIOLATION"""
+    if o is not None and o["kind"] in ("proc", "type") and o["decl"] is not None:
         inf = case.infos[o["decl"]]
-        if inf["kind"] == "proc" and o["name"] in inf["locals"]:
-            return "C14-hover-local-before-global"
+        return inf["kind"] == "proc" and o["name"] in inf["locals"]
+    return False
+
+
+def known_class(case, cls, o):
+    """id of the known-finding class an oracle failure belongs to, or None (no class is pending at present)"""
     return None
 
 
@@ -244,6 +250,8 @@ def run(ctx):
             hist["oracle:" + cls] += 1
             if cls in ("hover", "sighelp"):
                 nontrivial.add((ci, req))
+            if cls == "hover" and shadowed_global(case, o):
+                hist["hover:global-entity-with-homonymous-local"] += 1
             if err is not None:
                 kid = known_class(case, cls, o)
                 if kid in known:
